@@ -17,15 +17,6 @@ ArgNames(g) == LET top == IF g.vs = {} THEN 0 ELSE Max(g.vs) IN g.vs \cup {top +
 Accepted1(g) == {t \in {<<R, <<a>>>> : R \in Rules1, a \in ArgNames(g)} : Check(t[1], g, t[2])}
 Accepted2(g) == {t \in {<<R, <<a, b>>>> : R \in Rules2, a \in ArgNames(g), b \in ArgNames(g)} : Check(t[1], g, t[2])}
 
-\* L1 for one application: the logged post-state is the specification's, up to the names of new vertices
-SameUpToNew(spec, impl, old) ==
-  LET ns == spec.vs \ old
-      ni == impl.vs \ old
-  IN /\ Cardinality(ns) = Cardinality(ni)
-     /\ spec.vs \cap old = impl.vs \cap old
-     /\ IF ns = {} THEN spec = impl
-        ELSE \E m \in {f \in [ns -> ni] : \A x, y \in ns : x # y => f[x] # f[y]} :
-               Rename(spec, [v \in spec.vs |-> IF v \in ns THEN m[v] ELSE v]) = impl
 
 Step(e) ==
   CASE e.k = "reset" ->
